@@ -1914,7 +1914,7 @@ def normalize_stream(ctx, I, n):
               "[atan(1/(t-1))]_t=1,2", "[atan(1/(t-1)) * x]_t=0,1", "[exp(1/t)]_t=-1,0", "[sin(t)/t]_t=0,1", "[atan(x/t)]_t=0,1"]
     cases = [(P(s), []) for s in corpus]
     # generated evaluations with a jump or an essential singularity at one end
-    for _ in range(max(6, n // 25)):
+    for _ in range(max(8, n // 60)):
         c = rng.choice([0, 0, 1, -1, 2])
         lo_sing = rng.random() < 0.5
         other = c + rng.choice([1, 2]) if lo_sing else c - rng.choice([1, 2])
@@ -1958,7 +1958,7 @@ def normalize_check(ctx, I, e, conds, rng):
             second = n2
     names = e.get_vars() | n1.get_vars()
     good = 0
-    for _ in range(8):
+    for _ in range(8 if names else 1):
         env = sample_env(E, rng, names, conds, set())
         if env is None:
             break
@@ -2536,7 +2536,7 @@ def run(ctx):
     else:
         order = [f for grp in groups for f in grp]
         nsel = sum(nsteps_of(c) for _, c in order)
-    stats = replay_examples(ctx, I, order, deadline=time.time() + ctx.scale(110, 900))
+    stats = replay_examples(ctx, I, order, deadline=time.time() + ctx.scale(95, 900))
     stats.pop("_slow", None)
     ntotal = sum(nsteps_of(c) for _, c in files)
     judged = sum(v for k, v in stats.items() if k in ("ok", "bad") or k.startswith("skip:"))
@@ -2636,7 +2636,7 @@ MANIFEST = {
             "Interval.sqrt/exp/log/sin/cos and powers with an interval or non-natural exponent. The numerical judgement uses >= 3 "
             "admissible parameter points per step (interior, near the stated bounds, larger magnitude) on generated rule applications "
             "and on the recorded steps of integral/examples: the thorough tier re-runs all ~1290 loadable recorded steps (time cap 15 "
-            "min), the quick tier one quarter of the files per run (the group seed mod 4, ~330 steps, 110 s cap; seeds 0-3 together "
+            "min), the quick tier one quarter of the files per run (the group seed mod 4, ~330 steps, 95 s cap; seeds 0-3 together "
             "cover every file); about 15% of the steps cannot be evaluated reliably and are counted as skipped. A recorded step whose "
             "rule starts raising (it re-runs on the unchanged tree: corpus/c19_replayable.json) is reported.",
     "note": "Trusted: Lean kernel + propext/Classical.choice/Quot.sound, Mathlib analysis library, the harness generators and the numerical "
